@@ -46,16 +46,17 @@ type gItem struct {
 }
 
 type gOp struct {
-	Op   string `json:"op"`
-	I    string `json:"i,omitempty"`
-	F    string `json:"f,omitempty"`
-	T    string `json:"t,omitempty"`
-	N    string `json:"n,omitempty"`
-	C    string `json:"c,omitempty"`
-	B    string `json:"b,omitempty"`
-	V    string `json:"v,omitempty"`
-	Menu int    `json:"menu,omitempty"`
+	Op   string   `json:"op"`
+	I    string   `json:"i,omitempty"`
+	F    string   `json:"f,omitempty"`
+	T    string   `json:"t,omitempty"`
+	N    string   `json:"n,omitempty"`
+	C    string   `json:"c,omitempty"`
+	B    string   `json:"b,omitempty"`
+	V    string   `json:"v,omitempty"`
+	Menu int      `json:"menu,omitempty"`
 	Gs   []gEntry `json:"gs,omitempty"`
+	Is   []string `json:"is,omitempty"` // burst: the items originated while the origin's gossip loops are stalled
 }
 
 type gBehaviour struct {
@@ -562,6 +563,90 @@ func (n *vnet) originate(it *gItem) {
 		"new": sent, "gets": gets})
 }
 
+// burst: the node's gossip loops are stalled (in production: the peer table is write-locked by a discovery, or a peer is
+// slow) while it accepts a series of vertices; when the loops run again every one of them is gossiped. The vertices
+// are handed to the pipe exactly as the notary does; the Originate events are written once the loops have caught up,
+// each with the messages that carry its item.
+func (n *vnet) burst(op gOp) {
+	gn := n.nodes[op.N]
+	if gn == nil {
+		return
+	}
+	gn.cancel()
+	time.Sleep(5 * time.Millisecond)
+	type rec struct {
+		id, res string
+		adm     []string
+	}
+	var recs []rec
+	before := n.lastID()
+	for _, id := range op.Is {
+		it := n.items[id]
+		if it == nil || it.Kind != "vrx" || it.Origin != op.N {
+			continue
+		}
+		t, err := transaction.New("gossip "+it.ID, spice.New(1, 0), nil, n.a.Address(), n.gr)
+		if err != nil {
+			fatal("trx: %v", err)
+		}
+		res := "ok"
+		v, err := gn.ab.CreateLeaf(context.Background(), &t)
+		if err != nil {
+			res = "err"
+		} else {
+			n.vrx[it.ID] = &v
+			n.itemHash[it.ID] = v.Hash
+			n.hashItem[v.Hash] = it.ID
+			gn.ab.VerifDrainTruncateSignal()
+			vc := v
+			gn.jug.SendVrx(&vc)
+		}
+		recs = append(recs, rec{id: id, res: res, adm: n.admitted(op.N)})
+	}
+	ctx, cancel := context.WithCancel(context.Background())
+	gn.cancel = cancel
+	go gn.g.RunVertexGossip(ctx)
+	go gn.g.RunTransactionGossip(ctx)
+	want := len(recs) * len(n.b.Peers[op.N])
+	for i, last, still := 0, -1, 0; i < 20000 && still < 1500; i++ {
+		n.settle()
+		sent, _ := n.newSince(before)
+		if len(sent) >= want {
+			break
+		}
+		if len(sent) == last {
+			still++
+		} else {
+			last, still = len(sent), 0
+		}
+		time.Sleep(200 * time.Microsecond)
+	}
+	// the pipe hands over from one goroutine per vertex, in no particular order: let the network deliver parents first
+	pos := map[string]int{}
+	for i, id := range op.Is {
+		pos[id] = i
+	}
+	n.mu.Lock()
+	sort.SliceStable(n.inflight, func(i, j int) bool {
+		a, b := n.inflight[i], n.inflight[j]
+		if a.id <= before || b.id <= before {
+			return a.id < b.id
+		}
+		return pos[a.item] < pos[b.item]
+	})
+	n.mu.Unlock()
+	sent, _ := n.newSince(before)
+	for _, r := range recs {
+		mine := []map[string]any{}
+		for _, m := range sent {
+			if m["item"] == r.id {
+				mine = append(mine, m)
+			}
+		}
+		n.emit(map[string]any{"a": "Originate", "item": r.id, "n": op.N, "res": r.res, "adm": r.adm, "new": mine, "gets": []map[string]any{}})
+	}
+}
+
 // forge builds the list an adversarial relay attaches: menu numbers follow ForgeMenu of GossipNet.tla.
 func (n *vnet) forge(op gOp) {
 	it := n.items[op.I]
@@ -743,6 +828,8 @@ func (n *vnet) run() {
 			n.retry(op.N)
 		case "forge":
 			n.forge(op)
+		case "burst":
+			n.burst(op)
 		case "poison":
 			n.poison(op)
 		}
